@@ -196,6 +196,7 @@ def run(ctx):
                     ev.append((pk[1][-1][2], (pk[0], pk[1][:-1]), status_entry_of(du.val_call(t, 0, bid)), t["span"]["line"]))
             events[bid] = ev
         k = 0
+        matched = set()
         for bid in sorted(events):
             for i, (what, base, entry, line) in enumerate(events[bid]):
                 if what != "status_code":
@@ -205,9 +206,11 @@ def run(ctx):
                 nxt = None
                 cur, idx, hops = bid, i + 1, 0
                 while nxt is None and hops < 12:
-                    for (w2, b2, e2, l2) in events.get(cur, [])[idx:]:
+                    for j2, (w2, b2, e2, l2) in enumerate(events.get(cur, [])[idx:]):
                         if b2 == base:
                             nxt = (w2, e2, l2)
+                            if w2 == "reason_phrase":
+                                matched.add((cur, idx + j2))
                             break
                     if nxt is not None or len(cfg.succ[cur]) != 1:
                         break
@@ -217,6 +220,17 @@ def run(ctx):
                 if not ok:
                     r3.violate("C05|R3|%s|pair-%d" % (n, k), "%s sets status_code from %s at line %d but the reason_phrase that follows comes from %s" % (n, entry, line, nxt[1] if nxt else "nowhere"),
                                fn.file, line, n)
+        # the converse: a reason_phrase that is not the partner of a status_code assignment just before it keeps whatever code was there
+        kk = 0
+        for bid in sorted(events):
+            for i, (what, base, entry, line) in enumerate(events[bid]):
+                if what != "reason_phrase":
+                    continue
+                kk += 1
+                ok = (bid, i) in matched
+                if not ok:
+                    r3.instance({"fn": n, "line": line, "phrase_entry": entry, "status_entry": None}, False)
+                    r3.violate("C05|R3|%s|lone-phrase-%d" % (n, kk), "%s sets reason_phrase from %s at line %d without setting status_code from the same entry just before it: the status line keeps the code it had (e.g. '501 OK')" % (n, entry, line), fn.file, line, n)
 
     serialiser_clauses(ctx, chk, "C05", seen)
     chk.assumptions += ["header values other than those parsed from the request are constants, configuration or numbers (no CR/LF); request header lines are read with read_until('\\n'), so CR/LF can only sit at the end of a line",
@@ -271,6 +285,14 @@ def serialiser_clauses(ctx, chk, prop, seen):
                 r6.instance({"fn": n, "header": hname, "built_under": conds}, ok)
                 if not ok:
                     r6.violate((prop + "|R6|%s|%s|twice") % (n, hname), "%s can build %s twice on one path (branches %s are not mutually exclusive)" % (n, hname, conds), fn.file, fn.span["line"], n)
+                # and together they cover every non-empty list of ranges: a response with a body always says what it is
+                if hname == "Content-Type" and all(c is not None for c in conds) and in_server:
+                    def _sat(c, n_):
+                        return all({"Eq": n_ == k, "Ne": n_ != k, "Gt": n_ > k, "Ge": n_ >= k, "Lt": n_ < k, "Le": n_ <= k}[op] for op, k in c)
+                    gaps = [n_ for n_ in range(1, 12) if not any(_sat(c, n_) for c in conds)]
+                    r6.instance({"fn": n, "header": hname, "built_under": conds, "range_counts_without_it": gaps}, not gaps)
+                    if gaps:
+                        r6.violate((prop + "|R6|%s|%s|gap") % (n, hname), "%s builds no %s for a response with %s content range(s) (branches %s): the multipart body goes out unlabelled and cannot be read back" % (n, hname, gaps[:3], conds), fn.file, fn.span["line"], n)
         # R6 shape of the header loop: name, ': ', value, CRLF appended in that order (push_str, extend_from_slice or one format!)
         seqs = emission_sequences(ctx, fn)
         pat = ["field:name", "const:: ", "field:value", "const:\r\n"]
@@ -282,19 +304,10 @@ def serialiser_clauses(ctx, chk, prop, seen):
         if in_server:
             body_locals = [t["dest"]["l"] for _, t in fn.calls() if callee_name(t) == "response::Response::generate_body"]
             method_tests = {}
-            for sb in cfg.live_blocks():
-                st = cfg.blocks[sb]["term"]
-                if st["k"] != "switch":
-                    continue
-                v = du.val_operand(st["discr"])
-                m = _method_eq(v)
-                if m in ("HEAD", "OPTIONS"):
-                    false_edge = None
-                    for val, tb in st["targets"]:
-                        if val == 0:
-                            false_edge = (sb, tb)
-                    if false_edge:
-                        method_tests.setdefault(m, []).append(false_edge)
+            for m in ("HEAD", "OPTIONS"):
+                _h, _f = method_edges(cfg, du, m)
+                if _f:
+                    method_tests[m] = _f
             uses = []
             for bid in cfg.live_blocks():
                 b = cfg.blocks[bid]
@@ -418,6 +431,22 @@ def _all_const_join(du, v, depth=0):
     return False
 
 
+def content_type_branch_gaps(ctx, n):
+    """(conditions under which serialiser n builds Content-Type, range counts >= 1 that none of them covers); None when n builds one
+    Content-Type only or a condition is not a comparison of the range count with a constant"""
+    fn = ctx.inl(ctx.F.fns[n])
+    du, cfg = du_of(fn), cfg_of(fn)
+    lst = [(bid, s) for bid, s, nv, vv in header_aggregates(fn) if const_str(nv) == "Content-Type"]
+    if len(lst) < 2:
+        return None
+    conds = [_len_condition(cfg, du, bid) for bid, _ in lst]
+    if any(c is None for c in conds):
+        return None
+    def _sat(c, n_):
+        return all({"Eq": n_ == k, "Ne": n_ != k, "Gt": n_ > k, "Ge": n_ >= k, "Lt": n_ < k, "Le": n_ <= k}[op] for op, k in c)
+    return conds, [n_ for n_ in range(1, 12) if not any(_sat(c, n_) for c in conds)]
+
+
 def _len_condition(cfg, du, block):
     """the (op, k) comparisons of a `.len()` with a constant whose true edge dominates `block`"""
     out = []
@@ -527,6 +556,32 @@ def emission_sequences(ctx, fn):
         if seq:
             out.append(seq)
     return out
+
+
+def method_edges(cfg, du, which):
+    """(edges on which `request.method == which` holds, edges on which it does not) over all switches of the function; `!=` and `!`
+    are followed, so the polarity is that of the comparison, not of the switch"""
+    holds, fails = [], []
+    for sb in cfg.live_blocks():
+        st = cfg.blocks[sb]["term"]
+        if st["k"] != "switch" or st.get("discr_ty") != "bool":
+            continue
+        v = du.val_operand(st["discr"])
+        neg = False
+        while v[0] == "unop" and v[1] == "Not":
+            v, neg = v[2], not neg
+        if _method_eq(v) != which:
+            continue
+        if (v[1] or "").endswith("::ne"):
+            neg = not neg
+        for val, tb in st["targets"]:
+            if val == 0:
+                t_edge, f_edge = (sb, st["otherwise"]), (sb, tb)
+                if neg:
+                    t_edge, f_edge = f_edge, t_edge
+                holds.append(t_edge)
+                fails.append(f_edge)
+    return holds, fails
 
 
 def _method_eq(v, depth=0):
